@@ -4,6 +4,9 @@ package main
 // query AST; the real engine runs the rendered SQL, the model runs the same AST.
 
 import (
+	"math"
+	"unicode"
+	"unicode/utf8"
 	"encoding/json"
 	"fmt"
 	"strings"
@@ -21,6 +24,46 @@ type engIn struct {
 	// the SECOND result is the observable. Whether a prepared query sees later edits or a snapshot taken at New,
 	// the second result must be the result over the original document — unless Exec leaves state in the query.
 	Reexec bool `json:"reexec,omitempty"`
+	// IntKind ("int", "int64", "int32", "uint64"): before the real code runs, every integral number in the rows of
+	// table t is converted to that Go integer kind (negative values stay float64 for unsigned kinds). The model keeps
+	// seeing float64: for integers below 2^53 the kind of a numeric column must not change which rows qualify.
+	IntKind string `json:"intkind,omitempty"`
+	// ModelDoc / ModelQ: what the model is given instead of Doc / Q. Used only for LIKE over letters outside ASCII:
+	// the model folds ASCII case itself and takes Go's strings.ToLower as an oracle for every other letter, so it is
+	// given the document and the pattern with the non-ASCII runes already lowered. Observe verifies that the pair
+	// really is that transform of (Doc, Q), so a replay file cannot smuggle in a different question.
+	ModelDoc map[string]any `json:"model_doc,omitempty"`
+	ModelQ   *Stmt          `json:"model_q,omitempty"`
+}
+
+// lowerNonASCII lowers every rune >= 0x80 with Go's own table (the oracle) and leaves ASCII alone.
+func lowerNonASCII(s string) string {
+	return strings.Map(func(r rune) rune {
+		if r < 0x80 {
+			return r
+		}
+		return unicode.ToLower(r)
+	}, s)
+}
+
+func mapStrings(v any, f func(string) string) any {
+	switch t := v.(type) {
+	case string:
+		return f(t)
+	case []any:
+		out := make([]any, len(t))
+		for i, x := range t {
+			out[i] = mapStrings(x, f)
+		}
+		return out
+	case map[string]any:
+		out := make(map[string]any, len(t))
+		for k, x := range t {
+			out[k] = mapStrings(x, f)
+		}
+		return out
+	}
+	return v
 }
 
 type engineProp struct {
@@ -54,6 +97,33 @@ func observeEngine(in engIn) (Observed, error) {
 		opts = append(opts, genql.Wrapped())
 	}
 	doc := deepCopy(in.Doc).(map[string]any)
+	if in.IntKind != "" {
+		if rows, ok := doc["t"].([]any); ok {
+			for _, row := range rows {
+				if m, ok := row.(map[string]any); ok {
+					for k, v := range m {
+						if f, ok := v.(float64); ok && f == math.Trunc(f) && math.Abs(f) < 1<<53 {
+							switch in.IntKind {
+							case "int":
+								m[k] = int(f)
+							case "int64":
+								m[k] = int64(f)
+							case "int32":
+								if math.Abs(f) < 1<<31 {
+									m[k] = int32(f)
+								}
+							case "uint64":
+								if f >= 0 {
+									m[k] = uint64(f)
+								}
+							}
+						}
+					}
+				}
+			}
+		}
+	}
+	before := deepCopy(doc)
 	var out engineOut
 	if in.Reexec {
 		out = runEngineReexec(doc, sql, opts...)
@@ -62,7 +132,7 @@ func observeEngine(in engIn) (Observed, error) {
 	}
 	tags := []string{"outcome:" + out.Class}
 	// purity: the caller's document must be deep-equal to its state before the call (C11), whatever the outcome
-	mutated := deepDiff(anyMap(doc), anyMap(in.Doc))
+	mutated := deepDiff(anyMap(doc), before)
 	if mutated != "" {
 		tags = append(tags, "input-mutated")
 	}
@@ -98,7 +168,16 @@ func observeEngine(in engIn) (Observed, error) {
 	if t, ok := in.Doc["t"].([]any); ok && out.Class == "ok" && len(out.Rows) == len(t) && in.Q.Where != nil {
 		trivial = true // the filter kept everything
 	}
-	coqIn := "(" + coqBool(in.Wrapped) + ", " + coqValue(anyMap(in.Doc)) + ", " + in.Q.Coq() + ")"
+	mdoc, mq := in.Doc, in.Q
+	if in.ModelDoc != nil || in.ModelQ != nil {
+		if in.ModelDoc == nil || in.ModelQ == nil || !utf8.ValidString(sql) ||
+			deepDiff(anyMap(in.ModelDoc), mapStrings(anyMap(in.Doc), lowerNonASCII)) != "" || in.ModelQ.SQL() != lowerNonASCII(sql) {
+			return Observed{}, fmt.Errorf("model_doc / model_q are not the non-ASCII lowering of doc / q")
+		}
+		mdoc, mq = in.ModelDoc, in.ModelQ
+		tags = append(tags, "model-input:non-ascii-lowered")
+	}
+	coqIn := "(" + coqBool(in.Wrapped) + ", " + coqValue(anyMap(mdoc)) + ", " + mq.Coq() + ")"
 	return Observed{CoqIn: coqIn, CoqObs: obs, Note: map[string]any{"sql": sql, "class": out.Class, "err": out.Err, "rows": jsonSafe(anySlice(out.Rows))}, Tags: tags, Trivial: trivial}, nil
 }
 
@@ -257,6 +336,10 @@ func genPred(r *Rand, t table, depth int, tags *[]string) *Expr {
 	case 4:
 		neg := r.Bool()
 		k := r.Intn(4)
+		if r.Chance(10) {
+			k = 16 + r.Intn(9) // a long list
+			tag("in-long-list")
+		}
 		var items []*Expr
 		var a *Expr
 		if r.Bool() {
@@ -315,6 +398,11 @@ func genPred(r *Rand, t table, depth int, tags *[]string) *Expr {
 		if neg {
 			tag("notin-subquery")
 		}
+		if r.Chance(35) {
+			// correlated: the inner WHERE mentions a column of the outer row, so the set differs from row to row
+			sub.Where = Cmp(Pick(r, cmpOps), Col("v"), Col("<-", Pick(r, []string{"n1", "n2", "id"})))
+			tag("in-subquery-correlated")
+		}
 		return &Expr{K: "insub", Neg: neg, A: Col(Pick(r, t.numCols)), Q: sub}
 	}
 }
@@ -341,9 +429,93 @@ func genC01(r *Rand, tier string) []Case {
 		if tier == "thorough" {
 			depth = r.Intn(7)
 		}
+		intKind := ""
+		if r.Chance(12) {
+			// a numeric column of a Go integer kind, with magnitudes that %v prints in exponent form as float64
+			intKind = Pick(r, []string{"int", "int64", "int32", "uint64"})
+			scale := Pick(r, []float64{1, 1, 1000000, 10000000})
+			for _, row := range t.rows {
+				m := row.(map[string]any)
+				for _, c := range t.numCols {
+					if f, ok := m[c].(float64); ok {
+						m[c] = f * scale
+					}
+				}
+			}
+			tags = append(tags, "intkind:"+intKind)
+		}
 		p := genPred(r, t, depth, &tags)
+		if intKind != "" && r.Chance(40) {
+			// a long list of plain non-negative literals, some of them values of the integer column
+			col := Pick(r, t.numCols)
+			var items []*Expr
+			for k := 16 + r.Intn(10); k > 0; k-- {
+				items = append(items, Num(math.Abs(t.numConst(r))))
+			}
+			p = &Expr{K: "in", Neg: r.Chance(30), A: Col(col), Items: items}
+			tags = append(tags, "op:in-long-list-int-column")
+		}
 		tags = append(tags, fmt.Sprintf("depth:%d", depth), fmt.Sprintf("tablerows:%d", len(t.rows)))
-		out = append(out, mkCase(doc, selectStar("t", p), tags, len(t.rows) >= 2))
+		c := mkCase(doc, selectStar("t", p), tags, len(t.rows) >= 2)
+		if intKind != "" {
+			in := c.Input.(engIn)
+			in.IntKind = intKind
+			c.Input = in
+			c.Key += "|" + intKind
+		}
+		out = append(out, c)
+	}
+	// LIKE over letters outside ASCII whose two cases differ (also in UTF-8 length): value and pattern in different cases
+	families := [][]string{{"\u0130stanbul", "istanbul", "ISTANBUL"}, {"\u212Aelvin", "kelvin", "KELVIN", "Kelvin"}, {"10 k\u2126", "10 k\u03c9", "10 K\u03a9"},
+		{"GRO\u1E9EE", "gro\u00dfe"}, {"\u00c9t\u00e9", "\u00e9T\u00c9", "\u00e9t\u00e9"}, {"\u042f\u0431\u043b\u043e\u043a\u043e", "\u044f\u0411\u041b\u043e\u043a\u043e"},
+		{"\u03a9mega", "\u03c9MEGA"}, {"\u4e16a", "\u4e16A"}}
+	nl := 60
+	if tier == "thorough" {
+		nl = 600
+	}
+	for i := 0; i < nl; i++ {
+		n := 1 + r.Intn(5)
+		rows := make([]any, n)
+		fam := Pick(r, families)
+		for j := range rows {
+			v := Pick(r, fam)
+			if r.Chance(20) {
+				v = Pick(r, Pick(r, families))
+			}
+			rows[j] = map[string]any{"id": float64(j + 1), "s1": v}
+		}
+		base := []rune(Pick(r, fam))
+		var pat string
+		switch r.Intn(5) {
+		case 0:
+			pat = string(base[:r.Intn(len(base)+1)]) + "%"
+		case 1:
+			pat = "%" + string(base[r.Intn(len(base)+1):])
+		case 2:
+			pat = string(base)
+		case 3:
+			if len(base) > 0 {
+				base[r.Intn(len(base))] = '_'
+			}
+			pat = string(base)
+		default:
+			k := r.Intn(len(base) + 1)
+			pat = string(base[:k]) + "%" + string(base[k:])
+		}
+		if r.Bool() {
+			pat = strings.ToUpper(pat)
+		}
+		q := &Stmt{From: &From{K: "table", Path: []string{"t"}}, Items: []Item{{E: Col("id")}},
+			Where: &Expr{K: "like", Neg: r.Chance(30), A: Col("s1"), B: Str(pat)}}
+		doc := map[string]any{"t": rows}
+		c := mkCase(doc, q, []string{"op:like-non-ascii-case"}, true)
+		in := c.Input.(engIn)
+		in.ModelDoc = mapStrings(anyMap(deepCopy(doc).(map[string]any)), lowerNonASCII).(map[string]any)
+		mq := *q
+		mq.Where = &Expr{K: "like", Neg: q.Where.Neg, A: Col("s1"), B: Str(lowerNonASCII(pat))}
+		in.ModelQ = &mq
+		c.Input = in
+		out = append(out, c)
 	}
 	return out
 }
